@@ -25,7 +25,7 @@ import (
 )
 
 func init() {
-	evid.Register(&evid.Check{ID: "C18", Level: "exploration", Run: run, QuickBudget: 90 * time.Second, ThoroughBudget: 14 * time.Minute})
+	evid.Register(&evid.Check{ID: "C18", Level: "exploration", Run: run, QuickBudget: 240 * time.Second, ThoroughBudget: 14 * time.Minute})
 }
 
 type scope struct{ Path, Module string }
@@ -449,7 +449,7 @@ type runner struct {
 }
 
 // runCase applies one configuration (given as text + its abstract meaning) to every image.
-func (x *runner) runCase(idx int, form, text string, cfg Config) {
+func (x *runner) runCase(idx int, block, form, text string, cfg Config) {
 	managed, err := parseManaged(text)
 	if err != nil {
 		x.ck.st.parseErrors.Add(1)
@@ -457,6 +457,9 @@ func (x *runner) runCase(idx int, form, text string, cfg Config) {
 		return
 	}
 	for _, m := range x.masters {
+		if !m.Spec.runsIn(block) {
+			continue
+		}
 		img, err := bufimage.CloneImage(m.Image)
 		if err != nil {
 			x.r.Incomplete("harness: CloneImage: " + err.Error())
@@ -510,7 +513,7 @@ func (x *runner) runCase(idx int, form, text string, cfg Config) {
 func run(r *evid.Run) {
 	ctx := context.Background()
 	quick := r.Quick()
-	r.Rule("case = (fixture image, managed configuration text). v2 space: per governed option family every override sequence of length <=2 (thorough: <=3 for families with prefix/suffix) over {option, option_prefix, option_suffix} x scopes {all, dir, file, module one, module two, WKT dir} (x both bool values / 2-3 enum values; jstype also by field and field+path), crossed with every set of <=2 disable rules over the family-relevant alphabet {path, module, file_option value/prefix/suffix, file_option+module, file_option+path, an unrelated file_option, field_option jstype, field}; plus a cross-family space (every governed key overridden at once in both orders x every set of <=2 disables over the union alphabet), the same with managed mode off, and a v1 space ({default, except, override} shapes x per-file overrides per option, and all options at once). A case is distinct non-trivial when at least one governed option was rewritten or an exemption (disable rule, WKT, non-64-bit field) suppressed a rewrite; key = image + configuration text.")
+	r.Rule("case = (fixture image, managed configuration text). 7 fixture images: A-D (plain / pre-set / custom options / two modules with imported well-known types), E (a vendored well-known type as TARGET file, a non-WKT file below google/protobuf/), F (same source narrowed to one target: non-WKT file, vendored WKT and built-in WKT as IMPORTS), G (generated: every field option list over 10 sibling shapes - scalar/sub-field/nested sub-field/repeated sub-field/aggregate/repeated/repeated message custom options, deprecated, default, json_name - alone and in pairs x pre-set jstype value x jstype position, at 8 field positions; jstype, cross and v1 blocks only). v2 space: per governed option family every override sequence of length <=2 (thorough: <=3 for families with prefix/suffix) over {option, option_prefix, option_suffix} x scopes {all, dir, file, module one, module two, WKT dir} (x both bool values / 2-3 enum values; jstype also by field and field+path), crossed with every set of <=2 disable rules over the family-relevant alphabet {path, module, file_option value/prefix/suffix, file_option+module, file_option+path, an unrelated file_option, field_option jstype, field}; plus a cross-family space (every governed key overridden at once in both orders x every set of <=2 disables over the union alphabet), the same with managed mode off, and a v1 space ({default, except, override} shapes x per-file overrides per option, and all options at once). A case is distinct non-trivial when at least one governed option was rewritten or an exemption (disable rule, WKT, non-64-bit field) suppressed a rewrite; key = image + configuration text.")
 	r.Assume("override values are non-empty strings; empty-string overrides are not enumerated")
 	r.Assume("the documented default values of managed mode for the fixture files are written down by hand in images.go and also compared with the rule-free run")
 	r.Assume("v1beta1 buf.gen.yaml and ModifyPreserveExisting (not used by the CLI) are out of scope; `buf generate` with a recording plugin is not run here")
@@ -523,7 +526,18 @@ func run(r *evid.Run) {
 		}
 	}
 	x := &runner{r: r, ck: &checker{r: r, st: &stats{}}}
+	onlyImages := map[string]bool{}
+	if only := os.Getenv("VERIF_C18_IMAGES"); only != "" {
+		// debugging aid (mutant runs, cost measurements): run only the named images; the run is reported as incomplete
+		for _, n := range strings.Split(only, ",") {
+			onlyImages[n] = true
+		}
+		r.Incomplete("VERIF_C18_IMAGES=" + only + ": only these images were run")
+	}
 	for _, spec := range imageSpecs() {
+		if len(onlyImages) > 0 && !onlyImages[spec.Name] {
+			continue
+		}
 		m, err := buildMaster(ctx, spec)
 		if err != nil {
 			r.Incomplete("harness: " + err.Error())
@@ -620,6 +634,34 @@ func run(r *evid.Run) {
 	r.Set("configs_managed_off", len(crossOff))
 	r.Set("configs_v1", len(v1))
 	r.Set("images", len(x.masters))
+	imageFacts := map[string]any{}
+	for _, m := range x.masters {
+		fields, fieldsWithDeepOnly, locs, targets, imports := 0, 0, 0, []string{}, []string{}
+		for _, mf := range m.Files {
+			if mf.IsImport {
+				imports = append(imports, mf.Path)
+			} else {
+				targets = append(targets, mf.Path)
+			}
+			if mf.Lit.WKT && mf.Lit.Module == "" {
+				continue
+			}
+			fields += len(mf.Fields)
+			locs += len(mf.LocKeys)
+			for _, fl := range mf.FieldLocs {
+				if len(fl.JSType) > 0 && fl.MinOtherDepth >= 2 {
+					fieldsWithDeepOnly++
+				}
+			}
+		}
+		blocksOfImage := "all"
+		if m.Spec.Blocks != nil {
+			blocksOfImage = strings.Join(sortedKeys(m.Spec.Blocks), ",")
+		}
+		imageFacts[m.Spec.Name] = map[string]any{"targets": targets, "imports": imports, "fields": fields, "source_locations": locs,
+			"fields_with_jstype_and_only_deep_sibling_locations": fieldsWithDeepOnly, "blocks": blocksOfImage}
+	}
+	r.Set("image_facts", imageFacts)
 
 	// visit the work list with a stride coprime to its length, so that a run cut by the deadline has seen a
 	// slice of every block instead of only the first blocks
@@ -636,17 +678,17 @@ func run(r *evid.Run) {
 				bi++
 			}
 			cfg := blocks[bi].config(i - offsets[bi])
-			x.runCase(i, "v2", cfg.RenderV2(), cfg)
+			x.runCase(i, blocks[bi].Name, "v2", cfg.RenderV2(), cfg)
 		case i < nFamily+len(cross):
 			cfg := cross[i-nFamily]
-			x.runCase(i, "v2", cfg.RenderV2(), cfg)
+			x.runCase(i, "cross", "v2", cfg.RenderV2(), cfg)
 		case i < nFamily+len(cross)+len(crossOff):
 			cfg := crossOff[i-nFamily-len(cross)]
 			cfg.Enabled = false
-			x.runCase(i, "v2", cfg.RenderV2(), cfg)
+			x.runCase(i, "off", "v2", cfg.RenderV2(), cfg)
 		default:
 			v := v1[i-nFamily-len(cross)-len(crossOff)]
-			x.runCase(i, "v1", v.RenderV1(), v.ToConfig())
+			x.runCase(i, "v1", "v1", v.RenderV1(), v.ToConfig())
 		}
 	})
 
@@ -698,11 +740,25 @@ func run(r *evid.Run) {
 		"srcinfo_files_with_nothing_to_remove":   st.sciFilesUntouched.Load(),
 		"frame_file_comparisons":                 st.frameFilesCompared.Load(),
 		"config_parse_errors":                    st.parseErrors.Load(),
+		// round 2
+		"wkt_target_file_in_scope_of_a_rule":                st.wktTargetProtected.Load(),
+		"wkt_import_file_in_scope_of_a_rule":                st.wktImportProtected.Load(),
+		"options_rewritten_in_non_wkt_import_files":         st.importFileRewritten.Load(),
+		"options_rewritten_in_non_wkt_file_under_wkt_dir":   st.underWKTDirRewritten.Load(),
+		"srcinfo_root_kept_nearest_sibling_1_below_options": st.sciRootKeptDepth[1].Load(),
+		"srcinfo_root_kept_nearest_sibling_2_below_options": st.sciRootKeptDepth[2].Load(),
+		"srcinfo_root_kept_nearest_sibling_3_below_options": st.sciRootKeptDepth[3].Load(),
+		"srcinfo_root_kept_only_deep_siblings_left":         st.sciRootKeptDeepOnly.Load(),
+		"srcinfo_root_removed_only_pseudo_options_left":     st.sciRootPseudoOnly.Load(),
 	}
 	r.Set("clauses", cov)
 	for _, k := range []string{"rewritten_to_default", "rewritten_to_last_override", "rewritten_to_prefix_suffix_composition", "several_overrides_match_last_differs",
 		"rewrite_suppressed_by_disable_rule", "rewrite_suppressed_because_wkt", "jstype_rewritten", "jstype_skipped_not_64bit", "input_already_has_managed_value",
-		"srcinfo_option_locations_removed", "srcinfo_field_option_roots_removed", "srcinfo_field_option_roots_kept", "cases_v1", "cases_managed_off"} {
+		"srcinfo_option_locations_removed", "srcinfo_field_option_roots_removed", "srcinfo_field_option_roots_kept", "cases_v1", "cases_managed_off",
+		"wkt_target_file_in_scope_of_a_rule", "wkt_import_file_in_scope_of_a_rule", "options_rewritten_in_non_wkt_import_files",
+		"options_rewritten_in_non_wkt_file_under_wkt_dir", "srcinfo_root_kept_nearest_sibling_1_below_options",
+		"srcinfo_root_kept_nearest_sibling_2_below_options", "srcinfo_root_kept_nearest_sibling_3_below_options",
+		"srcinfo_root_kept_only_deep_siblings_left", "srcinfo_root_removed_only_pseudo_options_left"} {
 		if cov[k] == 0 && !r.Expired() {
 			r.Incomplete("clause never exercised: " + k)
 		}
